@@ -511,6 +511,7 @@ class Run:
             rnd.shuffle(mix)
             ok = self.sm_step(mix, tm=rnd.choice([1, 2]))
             r = self.records[-1].result
+            self._rejected_raised(ok, mix)
             if ok:
                 if r.success or r.state is not st or r.state != st or tuple(r.possible_transitions) != ():
                     self.c20_findings.append({"sig": "rejected-action-had-effect",
@@ -533,12 +534,30 @@ class Run:
             mix = others + [first, second]
             ok = self.sm_step(mix, tm=1)
             r = self.records[-1].result
+            if first.component_id.startswith("m-"):
+                # a machine asked for the same phase twice: the second request is outside the cycle
+                # IDLE -> SETUP -> WORKING -> OUTAGE -> IDLE at its turn and has to be rejected (for an AGV the
+                # tables admit PICKUP -> WORKING, for which no handler exists: not a rejection, C20 is silent)
+                self._rejected_raised(ok, mix)
             if ok and (r.success or r.state is not st or r.state != st or tuple(r.possible_transitions) != ()):
                 self.c20_findings.append({"sig": "rejected-action-had-effect",
                                           "detail": f"two transitions for {first.component_id} in one action {mix}: success={r.success}",
                                           "step": len(self.records)})
             if canon.state(st) + "|" + repr(st) != text0:
                 self.c20_findings.append({"sig": "input-state-mutated", "detail": "after duplicate/competing mix", "step": len(self.records)})
+
+    def _rejected_raised(self, ok, mix):
+        """C20: an action containing a transition that must be rejected has to come back as a reported
+        failure; an exception escaping from `step` instead is a violation (errors that an applied valid
+        transition of the mix raises on its own - full buffers, the watchdog - are C05's matter)"""
+        if ok:
+            return
+        err = self.records[-1].error
+        name = err_name(err) if err is not None else None
+        if name is None or name.split("@")[0] in ("BufferFullError", "StepTimeout"):
+            return
+        self.c20_findings.append({"sig": "rejected-action-raised:" + name.split("@")[0],
+                                  "detail": f"step raised {name} instead of reporting failure for {mix}", "step": len(self.records)})
 
     def probe_env_failure(self):
         """C20: a failed step makes the environment truncate and keep its state (injected failure)"""
